@@ -220,12 +220,29 @@ def control_flow(case, ctx):
       argsA, argsB = argsA[:1], argsB[:1]
       beforeA, beforeB = M.numbering(argsA), M.numbering(argsB)
     f = branch(progs[0])
+    # all arguments cached, or only the first one; then the rest (which may
+    # alias objects of the cached one), or a bare Variable of the cached
+    # object, is passed at call time
+    partial_cache = (k + xv) % 2 == 1
+    if partial_cache:
+      _, vsA = M.reachable(argsA[:1])
+      _, vsB = M.reachable(argsB[:1])
+      if vsA and (len(argsA) < 2 or k % 2 == 0):
+        j = (k + abs(xv)) % len(vsA)
+        argsA, argsB = (argsA[0], vsA[j]), (argsB[0], vsB[j])
+        beforeA, beforeB = M.numbering(argsA), M.numbering(argsB)
+      partial_cache = len(argsB) >= 2
     yA = f(*argsA, x)
     yA2 = f(*argsA, x + 1)
     with sut('cached_partial'):
-      cf = nnx.cached_partial(nnx.jit(f), *argsB)
-      yB = cf(x)
-      yB2 = cf(x + 1)
+      if partial_cache:
+        cf = nnx.cached_partial(nnx.jit(f), argsB[0])
+        yB = cf(*argsB[1:], x)
+        yB2 = cf(*argsB[1:], x + 1)
+      else:
+        cf = nnx.cached_partial(nnx.jit(f), *argsB)
+        yB = cf(x)
+        yB2 = cf(x + 1)
     require(np.allclose(np.asarray(yA2), np.asarray(yB2), rtol=1e-6),
             lambda: f'cached_partial second call {np.asarray(yB2)} vs eager '
             f'{np.asarray(yA2)}')
